@@ -30,6 +30,7 @@ class ObRecord:
         self.model = None
         self.solver_out = ''
         self.smt2 = None
+        self.carved = False       # excluded on this path by the carve-out of an open known finding
 
 
 class TargetReport:
@@ -224,12 +225,15 @@ def explore_chunk(target, work, limit, carve_names, tier, cross_check=True):
                     drop=target.drop, set_iter=target.set_iter, qualname=target.qualname)
         ctx.interp = it
         it.local_overrides = dict(target.local_overrides(ctx, st))
-        for iname, (ifile, iqual) in getattr(target, 'inline', {}).items():
-            from .interp import Closure, Env
+        for iname, spec_ in getattr(target, 'inline', {}).items():
+            from .interp import Closure, Env, BoundClosure
             from . import extract as _ex
+            ifile, iqual = spec_[0], spec_[1]
             iex = _ex.function(ifile, iqual)
             _, iglobs = _ex.module_globals(ifile)
-            it.externs[iname] = Closure(iex.node, Env(globs=iglobs), it, iqual)
+            clo = Closure(iex.node, Env(globs=iglobs), it, iqual)
+            # (file, qualname, handle): a (class)method called through the real class name, bound to the stub `handle`
+            it.externs[iname] = BoundClosure(clo, getattr(st, spec_[2])) if len(spec_) > 2 else clo
             rep.inlined[iqual] = iex.describe()
         for handle, (ifile, icls, names) in getattr(target, 'inline_methods', {}).items():
             from .interp import Closure, Env, BoundClosure
@@ -330,9 +334,13 @@ def _account_path(target, rep, res, carve, tier, cross_check):
         ctx.solver.set('timeout', smt.Z3_TIMEOUT_MS)
     for (label, kind, goal, info, npc) in ctx.obligations:
         g = _z(goal)
+        carved = False
         if label in carve:
-            g = z3.Implies(_z(carve[label](ctx, res.state)), g)
+            cv = carve[label](ctx, res.state)
+            carved = cv is False
+            g = z3.Implies(_z(cv), g)
         ob = ObRecord(target.oid(kind, label), kind, label, pid, ctx.choices)
+        ob.carved = carved
         pc = ctx.pc[:npc]
         status = None
         if npc == full:
@@ -430,7 +438,7 @@ def _cross_check(target, rep, res, pid):
         by_label = {}
         for ob in rep.obligations:
             if ob.path == pid:
-                by_label.setdefault(target.native_label(ob.label), []).append(ob.status)
+                by_label.setdefault(target.native_label(ob.label), []).append('carved' if ob.carved else ob.status)
         for label in sorted(false_native):
             sts = by_label.get(label)
             if sts and all(x == 'discharged' for x in sts):
